@@ -473,6 +473,16 @@ impl Session {
         self.trace.push(json!({"ev":"op","op":"disconnect","peer":peer}));
     }
 
+    /// the join attempt is ended at renet level (what a refused or timed-out handshake does): the RenetClient
+    /// becomes Disconnected while the transport resource stays
+    pub fn renet_disconnect(&mut self, peer: u32) {
+        let p = &mut self.peers[peer as usize];
+        if let Some(mut c) = p.app.world_mut().get_resource_mut::<RenetClient>() {
+            c.disconnect();
+        }
+        self.trace.push(json!({"ev":"op","op":"renet_disconnect","peer":peer}));
+    }
+
     pub fn remove_client_transport(&mut self, peer: u32) {
         self.peers[peer as usize].app.world_mut().remove_resource::<NetcodeClientTransport>();
         self.trace.push(json!({"ev":"op","op":"remove_client_transport","peer":peer}));
@@ -679,7 +689,11 @@ impl Session {
                 }
             }
         }
-        self.trace.push(json!({"ev":"op","op":"asset_insert","peer":peer,"kind":kind.name(),"uuid":uuid.map(|u| hex(u.as_bytes())),"n":n}));
+        let hash = uuid.and_then(|u| {
+            let t = asset_tables(self.peers[peer as usize].app.world());
+            t.get(kind.name()).and_then(|m| m.get(hex(u.as_bytes()))).and_then(|v| v.as_str().map(|s| s.to_string()))
+        });
+        self.trace.push(json!({"ev":"op","op":"asset_insert","peer":peer,"kind":kind.name(),"uuid":uuid.map(|u| hex(u.as_bytes())),"n":n,"hash":hash}));
     }
 
     /// the application supplies the engine companions of some kinds itself (with recognisable values)
@@ -947,6 +961,10 @@ impl Session {
                    "queued": a.downloads_queued, "active": a.downloads_active})
         });
         let assets = asset_tables(world);
+        let mut served: BTreeMap<String, BTreeMap<String, String>> = BTreeMap::new();
+        for (cls, u, b) in verif::served_assets(world) {
+            served.entry(cls.to_string()).or_default().insert(hex(u.as_bytes()), sha(&b));
+        }
         let server_state = world.get_resource::<State<ServerState>>().map(|s| format!("{:?}", s.get()));
         let client_state = world.get_resource::<State<ClientState>>().map(|s| format!("{:?}", s.get()));
         let has_server_t = world.contains_resource::<NetcodeServerTransport>();
@@ -955,7 +973,7 @@ impl Session {
         let client_disconnected = world.get_resource::<RenetClient>().map(|c| c.is_disconnected()).unwrap_or(true);
         let server_clients = world.get_resource::<RenetServer>().map(|s| s.clients_id().len()).unwrap_or(0);
         let sync_finished = world.resource::<SyncFinishedCount>().0;
-        json!({"ents": ents, "marks": marks, "tracker": tracker, "xfer": xfer, "assets": assets,
+        json!({"ents": ents, "marks": marks, "tracker": tracker, "xfer": xfer, "assets": assets, "served": served,
                "server_state": server_state, "client_state": client_state,
                "server_transport": has_server_t, "client_transport": has_client_t,
                "client_connected": client_connected, "client_disconnected": client_disconnected,
